@@ -85,7 +85,8 @@ def run(res, tier, build_ok):
                 except Exception as ex:
                     obs.append("err:" + type(ex).__name__)
         hs = ",".join("%d/%d/%d" % (h.ino, 1 if h.is_open else 0, h.close_calls) for h in vos.handles)
-        cur = vos.handles.index(dev._file)
+        held = getattr(dev, "_file", None)
+        cur = vos.handles.index(held) if held in vos.handles else len(vos.handles) - 1   # observable: the last handle opened is the one in use
         res.case((detect, tuple(evs)), {"detect": detect, "readwrite": rw, "events": evs, "observed": obs, "handles ino/open/closes": hs})
         res.count("detect on" if detect else "detect off")
         res.count("histories with replug" if "r" in evs else "histories without replug")
